@@ -786,6 +786,7 @@ def editWord (S : Segmenter) (U : UData) (a : WordAction) : LM Bool := do
 
 /-- `transpose_words` -/
 def transposeWords (S : Segmenter) (U : UData) (n : Nat) : LM Bool := do
+  let origPos := (← get).pos
   let _ ← moveToNextWord S U .afterEnd .emacs n
   let w2End := (← get).pos
   let _ ← moveToPrevWord S U .emacs 1
@@ -794,7 +795,10 @@ def transposeWords (S : Segmenter) (U : UData) (n : Nat) : LM Bool := do
   let w1Beg := (← get).pos
   let _ ← moveToNextWord S U .afterEnd .emacs 1
   let w1End := (← get).pos
-  if w1Beg == w2Beg || w2Beg < w1End then return false
+  if w1Beg == w2Beg || w2Beg < w1End then
+    -- nothing to transpose: the cursor is put back (fix: transpose_words restores the cursor)
+    setPos origPos
+    return false
   let w1 ← lift (slice (← get).buf w1Beg w1End)
   let w2 ← drain w2Beg w2End .forward
   let _ ← insertStr S U w2Beg w1
